@@ -92,8 +92,9 @@ Section Sup.
       (fst (insert ltb top (set_cost h i zero) i), nd1)
     else (set_cost h i top, nd).
 
-  (* [semi = true]: semi_supervised.py additionally writes label[q] := predicted_label[q] *)
-  Definition fit_relax (semi : bool) (w : nat -> nat -> W) (p : nat) (st : heap W * nodes) (q : nat)
+  (* [semi = true]: semi_supervised.py additionally writes label[q] := predicted_label[q]
+     for the unlabeled nodes [q >= nl] ([nl] = number of labeled nodes) *)
+  Definition fit_relax (semi : bool) (nl : nat) (w : nat -> nat -> W) (p : nat) (st : heap W * nodes) (q : nat)
     : heap W * nodes :=
     let '(h, nd) := st in
     if negb (Nat.eqb p q) && ltb (hcost_at h p) (hcost_at h q) then
@@ -101,13 +102,13 @@ Section Sup.
       if ltb cur (hcost_at h q) then
         let pl := nth p (n_plabel nd) 0 in
         let nd1 := mkNodes (n_cost nd) (upd (n_pred nd) q (Some p))
-                           (if semi then upd (n_label nd) q pl else n_label nd)
+                           (if semi && Nat.leb nl q then upd (n_label nd) q pl else n_label nd)
                            (upd (n_plabel nd) q pl) (n_status nd) (n_relevant nd) (n_order nd) in
         (update ltb top h q cur, nd1)
       else (h, nd)
     else (h, nd).
 
-  Fixpoint fit_loop (fuel n : nat) (semi : bool) (w : nat -> nat -> W) (h : heap W) (nd : nodes)
+  Fixpoint fit_loop (fuel n : nat) (semi : bool) (nl : nat) (w : nat -> nat -> W) (h : heap W) (nd : nodes)
     : heap W * nodes :=
     match fuel with
     | 0 => (h, nd)
@@ -117,19 +118,19 @@ Section Sup.
       | (h1, Some p) =>
         let nd1 := mkNodes (upd (n_cost nd) p (hcost_at h1 p)) (n_pred nd) (n_label nd) (n_plabel nd)
                            (n_status nd) (n_relevant nd) (n_order nd ++ [p]) in
-        let '(h2, nd2) := fold_left (fit_relax semi w p) (seq 0 n) (h1, nd1) in
-        fit_loop f n semi w h2 nd2
+        let '(h2, nd2) := fold_left (fit_relax semi nl w p) (seq 0 n) (h1, nd1) in
+        fit_loop f n semi nl w h2 nd2
       end
     end.
 
-  Definition compete (semi : bool) (n : nat) (w : nat -> nat -> W) (nd : nodes) : nodes :=
+  Definition compete (semi : bool) (nl n : nat) (w : nat -> nat -> W) (nd : nodes) : nodes :=
     let '(h, nd1) := fold_left seed_step (seq 0 n) (h_init top n PMin, nd) in
-    snd (fit_loop n n semi w h nd1).
+    snd (fit_loop n n semi nl w h nd1).
 
   (* SupervisedOPF.fit *)
   Definition sup_fit (labels : list nat) (w : nat -> nat -> W) : nodes :=
     let n := length labels in
-    compete false n w (find_prototypes n w (nodes_init labels)).
+    compete false n n w (find_prototypes n w (nodes_init labels)).
 
   (* SemiSupervisedOPF.fit: [labels] for the labeled prefix, [nu] unlabeled nodes appended with label 0 *)
   Definition append_unlabeled (nd : nodes) (nu : nat) : nodes :=
@@ -139,12 +140,12 @@ Section Sup.
 
   Definition semi_fit (labels : list nat) (nu : nat) (w : nat -> nat -> W) : nodes :=
     let nl := length labels in
-    compete true (nl + nu) w (append_unlabeled (find_prototypes nl w (nodes_init labels)) nu).
+    compete true nl (nl + nu) w (append_unlabeled (find_prototypes nl w (nodes_init labels)) nu).
 
   (* ---------------- predict ---------------- *)
 
   (* the scan for one query; [d k] = distance between training node k and the query.
-     returns (label, conqueror) with conqueror = None for the initial -1 *)
+     returns (label, conqueror); the conqueror starts as the first node of the conquest order *)
   Fixpoint scan (fuel : nat) (nd : nodes) (d : nat -> W) (n j : nat) (min_cost : W) (lab : nat)
            (conq : option nat) : nat * option nat :=
     match fuel with
@@ -164,7 +165,7 @@ Section Sup.
   Definition predict_one (nd : nodes) (d : nat -> W) : nat * option nat :=
     let n := length (n_cost nd) in
     let k := nth 0 (n_order nd) 0 in
-    scan n nd d n 0 (wmax (nth k (n_cost nd) zero) (d k)) (nth k (n_plabel nd) 0) None.
+    scan n nd d n 0 (wmax (nth k (n_cost nd) zero) (d k)) (nth k (n_plabel nd) 0) (Some k).
 
   (* Subgraph.mark_nodes *)
   Fixpoint mark_nodes (fuel : nat) (pred : list (option nat)) (rel : list bool) (i : nat) : list bool :=
